@@ -27,6 +27,7 @@ DOC = {
         "C12-R1": "every method of Parameters that changes parameter values is post-dominated by update_parameter_expression(); get_label_value_and_bounds_arrays starts with it; Parameter values are stored nowhere else in the package",
         "C12-R2": "the expression evaluation loop is enclosed in a fixed-point loop over at least as many passes as there are expression parameters; an early exit is taken only when a pass changed nothing (comparison before the store, flag reset per pass)",
         "C12-R3": "every character allowed in a label is in the character class of the `$label` regex (greedy, one or more); the substitution uses the regex' group inside `parameters.get('<label>').value` and the evaluator's symbol table binds `parameters` to the container",
+        "C12-R4": "every Parameters container evaluates its expressions on itself: `_evaluator` is stored only in `__init__` (bound to `self`), `Parameters.copy` and every alternative constructor build the new container through the constructor, no shallow copy (`copy.copy`, `__copy__`, `__new__`, `__dict__` transplant) of a container exists in the package, and the evaluation loop reads and writes the parameters of the same container the evaluator is bound to",
     },
     "declined": ["arbitrary asteval semantics of the expression text", "cyclic expressions (outside the property's quantifier)"],
     "assumptions": ["attrs `define` re-runs validators on attribute assignment (on_setattr default)"],
@@ -327,9 +328,79 @@ def r3(ctx) -> None:
     _ = fake
 
 
+def r4(ctx, rule: str = "C12-R4") -> None:
+    repo = ctx.repo
+    cls = repo.cls(PS, "Parameters")
+    init = ctx.fn(PS, "Parameters.__init__")
+    # 1. the evaluator is created in __init__ only, bound to self
+    n = 0
+    for fi in repo.functions.values():
+        for t, st in lib.stores(fi):
+            if isinstance(t, ast.Attribute) and t.attr == "_evaluator":
+                n += 1
+                ctx.ob(rule, f"{fi.short}/evaluator-created-in-init-only", fi is init and norm(t.value) == "self", fi, st,
+                       "an evaluator is bound to one container for its whole life: it is stored in Parameters.__init__ only",
+                       construct=lib.short(st, 120))
+    ctx.sites(rule, "stores of _evaluator", n, 1)
+    bound = False
+    for c in lib.calls(init):
+        if norm(c.func).endswith("make_symbol_table"):
+            bound = any(isinstance(k.value, ast.Name) and k.value.id == "self" for k in c.keywords)
+    ctx.ob(rule, "Parameters.__init__/evaluator-bound-to-self", bound, init, init.node, "the symbol table holds the container under construction")
+    # 2. copy builds a new container through the constructor
+    cp = ctx.fn(PS, "Parameters.copy")
+    fl = lib.flow(cp, repo)
+    rets = lib.nodes(cp, ast.Return)
+    ok = bool(rets)
+    for r in rets:
+        v = fl.inline(r.value, r) if r.value is not None else None
+        if isinstance(v, ast.Name):
+            ds = fl.reaching(v.id, r)
+            ok = ok and bool(ds) and all(d.kind == "assign" and isinstance(d.value, ast.Call) and norm(d.value.func) in ("Parameters", "type(self)", "self.__class__") for d in ds)
+        else:
+            ok = ok and isinstance(v, ast.Call) and norm(v.func) in ("Parameters", "type(self)", "self.__class__")
+    ctx.ob(rule, "Parameters.copy/new-container-through-init", ok, cp, rets[0] if rets else cp.node,
+           "a copy gets its own evaluator only if it is built by the constructor; a shallow copy keeps evaluating on the original's values",
+           construct=lib.short(rets[0], 120) if rets else "def copy")
+    # 3. nothing in the package makes a shallow copy or bypasses __init__
+    bad_methods = [m for m in ("__copy__", "__deepcopy__", "__new__", "__reduce__", "__reduce_ex__", "__getstate__", "__setstate__") if m in cls.methods]
+    ctx.ob(rule, "Parameters/no-copy-protocol-overrides", not bad_methods, None, cls.node, "the container does not customise copying/pickling",
+           construct=", ".join(bad_methods) or "class Parameters")
+    scanned = 0
+    for fi in repo.functions.values():
+        if not fi.rel.startswith(("glotaran/parameter/", "glotaran/optimization/", "glotaran/project/", "glotaran/builtin/io/", "glotaran/simulation/", "glotaran/model/")):
+            continue
+        scanned += 1
+        for c in lib.calls(fi):
+            q = lib.resolved(repo, fi, c.func) or ""
+            txt = norm(c.func)
+            if q in ("copy.copy",) or txt.endswith("__new__") or (txt.endswith("__dict__.update") and fi.cls == "Parameters"):
+                ctx.ob(rule, f"{fi.short}/no-shallow-copy", False, fi, c,
+                       "shallow copies share the expression evaluator (and the parameter objects) with the original", construct=lib.short(c, 100))
+    ctx.ob(rule, "package/no-shallow-copy", True, None, cls.node, f"{scanned} functions scanned for copy.copy / __new__ / __dict__ transplants")
+    # 4. the loop evaluates and stores on the evaluator's own container
+    up = ctx.fn(PS, "Parameters.update_parameter_expression")
+    evals = [c for c in lib.calls(up) if lib.chain_text(c.func) == "self._evaluator"]
+    flu = lib.flow(up, repo)
+    loops = [lp for lp in lib.nodes(up, ast.For) if any(lib.is_inside(c, lp) for c in evals) and not isinstance(lp.target, ast.Name) or
+             (isinstance(lp.target, ast.Name) and lp.target.id != "_" and any(lib.is_inside(c, lp) for c in evals))]
+
+    def from_self(e, at, depth=3):
+        if "self" in lib.names_in(e):
+            return True
+        if depth and isinstance(e, ast.Name):
+            ds = flu.reaching(e.id, at)
+            return bool(ds) and all(d.value is not None and from_self(d.value, d.stmt, depth - 1) for d in ds)
+        return False
+
+    own = bool(loops) and all(from_self(lp.iter, lp) for lp in loops)
+    ctx.ob(rule, "update_parameter_expression/own-container", own and bool(evals), up, loops[0] if loops else up.node,
+           "the parameters refreshed are those of the container whose evaluator is called")
+
+
 def check(ctx) -> None:
     for g in check.groups:
         g(ctx)
 
 
-check.groups = [r1, r2, r3]
+check.groups = [r1, r2, r3, r4]
